@@ -20,9 +20,8 @@
      literals, language-tagged strings (lower-case tags), xsd:boolean, xsd:integer, xsd:decimal -
      NOT dates, doubles, other datatypes (doubles only in the promotion suite: datatype proved,
      value to a tolerance).  The property's "sort keys of mixed term kinds and datatypes" is
-     covered for these seven kinds.  Exclusion visible in [wf] (sum_bool_free): no SUM argument
-     takes an xsd:boolean value - HEAD raises TypeError there (notes, F-C08i).  Expressions
-     (eval_t) over tagged strings / booleans are defined but not tied to rdflib.  Sort keys are variables (or aggregates as unprojected aliases); HAVING is one comparison
+     covered for these seven kinds.  Expressions (eval_t) over tagged strings / booleans are
+     defined but not tied to rdflib.  Sort keys are variables (or aggregates as unprojected aliases); HAVING is one comparison
      of COUNT/SUM/AVG with an integer or of a grouping key with an IRI.
    * The literal order (numeric below string) is rdflib's choice where SPARQL 15.1 leaves the
      order of unrelated literals open: the checker is stricter than the standard there. *)
